@@ -196,6 +196,11 @@ static int d_fvec_cal(fx_t *F, int v, dv_t *o)	/* object's own length */
     int n = dvp(o, 0, v == VN_A5 ? F->f5 : F->f3, X_BASE, 0, "ascending");
     n = dvp(o, n, F->fdesc, X_FAIL, 0, "descending");
     n = dvp(o, n, F->fneg, X_FAIL, 0, "negative");
+    /* far above the band: refused by an object that holds a standard
+       tabulated over a limited band (vnpR), accepted by the others */
+    if (v != VN_A5)
+	n = dvp(o, n, F->fhigh, v == VN_R ? X_FAIL : X_ALT, EM_INVAL,
+		"above-the-band");
     return n;
 }
 static int d_fvec5(fx_t *F, int v, dv_t *o)
